@@ -261,8 +261,13 @@ def install():
         c = C.cur()
         if c is None or not c.in_session:
             return ORIG['bm._check_for_liquidations'](candle, exchange, symbol)
+        from jesse.store import store
+        n0 = store.app.total_liquidations
         c.dispatch('liq_begin', exchange, symbol, candle)
         ORIG['bm._check_for_liquidations'](candle, exchange, symbol)
+        if store.app.total_liquidations != n0:
+            c.count('liquidations_seen')
+            c.ev('liquidation', symbol, int(store.app.time))
         c.dispatch('liq_end', exchange, symbol, candle)
 
     def exec_market():
